@@ -19,6 +19,9 @@ CHECKS = {
  "C06": ("E1-shape", "bounded-exhaustive enumeration of INTEGER bound pairs x contexts executed on the real compiler vs. width reference",
          "All 1431 (lo,hi) pairs of the 53-point boundary set x marker x 11 contexts (assignment, component, OPTIONAL, CHOICE alternative, nested member, SEQUENCE OF / SET OF element, value, value of referenced type, DEFAULT, DEFAULT of referenced type) x literal in {lo,hi,mid}, plus serial and union pairs over a 9-point subset (75 k cases) are compiled; the emitted integer type token must contain the permitted hull, be fixed-width only for finite non-extensible constraints, and every emitted literal must equal the source value and fit its declared type.",
          "Type-token -> range table and literal evaluator are trusted (self-tested); widths for constraints outside the boundary set follow by monotonicity of the comparison chains (small-scope argument, not a proof).", "§4 C06"),
+ "C07": ("E1-shape", "bounded-exhaustive enumeration of value notations x routes executed on the real compiler; initialisers reduced by a symbolic evaluator and compared with the model's abstract value",
+         "Integers (53-point boundary set and the i128 ends, three typings), booleans, NULL, all cstrings of length <=2 over {a, space, escaped quote, e-acute, euro} per string type (11 types) plus a 40-character string, all bstrings of length 0..8, all hstrings of 0..2 digits + every digit at every position + 64 walking-one patterns, all 32 named-bit subsets, named numbers, enumerals, OIDs over every arc form and every X.660 well-known name under each root, CHOICE/SEQUENCE/SEQUENCE OF values to depth 2 - each as value assignment, through two type references, via a value reference, as DEFAULT and as DEFAULT via a value reference (10 k values, both tiers): the emitted const / LazyLock static / default-fn body is evaluated symbolically to an abstract value and compared.",
+         "The evaluator knows exactly the expression forms the templates emit (self-tested); an unknown form is reported, not guessed. Values are not executed against rasn (no DER cross-check in this check).", "§4 C07"),
  "C08": ("E2-token", "exhaustive enumeration of five hostile-input families, each case executed on the real compiler in an isolated worker process with watchdog",
          "All token strings of length <=3 (thorough 4) over a 40-token alphabet in 3 placements; every byte prefix and every single-token edit (delete/duplicate/swap/replace/insert x 40 tokens) of 33 feature modules (+ real-world modules); multi-byte characters at every character position; every module left inside each kind of unterminated item; all functional reference graphs on 3 nodes over 8 edge kinds with/without a value; nesting depth 2^k for 15 bracket-like recursions; 16 unsupported notations x 10 positions and ~60 hostile one-liners (341 k inputs quick, ~9 M thorough), both backends; compile + Display + contextualize of every error/warning must return within 10 s without panic or process death.",
          "Worker isolation (8 MiB stack, 6 GiB address-space cap, 10 s watchdog) attributes a death or expiry to the single in-flight input. Arbitrary byte soup outside the token alphabet is covered only through the multi-byte and prefix families. 7 known-finding classes on the pinned tree (unbounded recursion, exponential parse time, one unreachable!).", "§4 C08"),
